@@ -9,12 +9,12 @@
    (overflow flag, Some/None, error kind) that is appended to the status log.
    A panic of any step is the panic of the whole run.
 
-   OPAQUE OPERATIONS: for the opcodes in `opaque_ops` (wrapping_pow, root: property C13) no model is
-   in /verif yet; their `sem` is the specification function of Model/Opaque.v applied to the
-   values of the operands (it does not describe the crate's code).  mul, div, rem, gcd, add_mod,
+   OPAQUE OPERATION: for the opcode in `opaque_ops` (root) `sem` is the specification function of
+   Model/Opaque.v applied to the value of the operand (it does not describe the crate's code:
+   Model/Root.v needs the floating-point estimate of approx_pow2 as an observed input).  mul, div, rem, gcd, add_mod,
    mul_mod, pow_mod and mul_redc are the models of Model/{Mul,UDiv,Gcd,Modular,Redc}.v. *)
 From RV.Model Require Import Base Word Opaque.
-From RV.Model Require Add Shift Bits Conv Bytes BaseConv Str Float Gen Mul UDiv Gcd Modular Redc.
+From RV.Model Require Add Shift Bits Conv Bytes BaseConv Str Float Gen Mul UDiv Gcd Modular Redc Pow.
 
 Inductive opcode : Type :=
 (* add.rs *)
@@ -37,9 +37,12 @@ Inductive opcode : Type :=
 (* constants *)
 | CZero | COne | CMin | CMax | Mov
 (* mul.rs, div.rs, gcd.rs, modular.rs; pow.rs and root.rs (opaque) *)
-| WrMul | WrDiv | WrRem | WrPow | Gcd | AddMod | MulMod | PowMod | Root | MulRedc.
+| WrMul | WrDiv | WrRem | WrPow | Gcd | AddMod | MulMod | PowMod | Root | MulRedc
+(* the remaining Uint-returning methods of mul.rs, div.rs, special.rs, gcd.rs, modular.rs, pow.rs *)
+| InvRing | ChMul | SatMul | OvMul | DivCeil | ChDiv | ChRem | NextMul | ChNextMul
+| InvMod | Lcm | GcdExt | ReduceMod | SquareRedc | ChPow | SatPow | OvPow.
 
-Definition opaque_ops : list opcode := [WrPow; Root].
+Definition opaque_ops : list opcode := [Root].
 
 Definition opcode_of (k : Z) : option opcode :=
   match k with
@@ -64,6 +67,11 @@ Definition opcode_of (k : Z) : option opcode :=
   | 110 => Some WrMul | 111 => Some WrDiv | 112 => Some WrRem | 113 => Some WrPow | 114 => Some Gcd
   | 115 => Some AddMod | 116 => Some MulMod | 117 => Some PowMod | 118 => Some Root
   | 119 => Some MulRedc
+  | 120 => Some InvRing | 121 => Some ChMul | 122 => Some SatMul | 123 => Some OvMul
+  | 124 => Some DivCeil | 125 => Some ChDiv | 126 => Some ChRem | 127 => Some NextMul
+  | 128 => Some ChNextMul | 129 => Some InvMod | 130 => Some Lcm | 131 => Some GcdExt
+  | 132 => Some ReduceMod | 133 => Some SquareRedc | 134 => Some ChPow | 135 => Some SatPow
+  | 136 => Some OvPow
   | _ => None
   end.
 
@@ -199,8 +207,30 @@ Definition sem (o : opcode) (bits : Z) (a b c imm : list Z) : sres :=
   | MulMod => do r <- Modular.mul_mod bits a b c ; wr r
   | PowMod => do r <- Modular.pow_mod bits a b c ; wr r
   | MulRedc => do r <- Redc.uint_mul_redc bits a b c s ; wr r
-  (* ---- opaque: specification functions of Model/Opaque.v ---- *)
-  | WrPow => lift bits (z_wrapping_pow bits (eval a) (eval b))
+  | WrPow => do r <- Pow.wrapping_pow bits a b ; wr r
+  | InvRing => do r <- Mul.inv_ring bits a ; wro r
+  | ChMul => wro (Mul.checked_mul bits a b)
+  | SatMul => wr (Mul.saturating_mul bits a b)
+  | OvMul => wrf (Mul.overflowing_mul bits a b)
+  | DivCeil => do r <- UDiv.div_ceil bits a b ; wr r
+  | ChDiv => do r <- UDiv.checked_div bits a b ; wro r
+  | ChRem => do r <- UDiv.checked_rem bits a b ; wro r
+  | NextMul => do r <- UDiv.next_multiple_of bits a b ; wr r
+  | ChNextMul => do r <- UDiv.checked_next_multiple_of bits a b ; wro r
+  | InvMod => do r <- Gcd.inv_mod bits a b ; wro r
+  | Lcm => do r <- Gcd.lcm bits a b ; wro r
+  | GcdExt =>
+      (* (gcd, x, y, sign) = a.gcd_extended(b): dst = gcd; the status word is 1 when one of the
+         cofactors has a bit above BITS (their values are fixed by the property only modulo 2^BITS) *)
+      do r <- Gcd.gcd_extended bits a b ;
+      let '(g, x, y, _) := r in
+      Val (Some g, b2z (negb (canonb bits x && canonb bits y)))
+  | ReduceMod => do r <- Modular.reduce_mod bits a b ; wr r
+  | SquareRedc => do r <- Redc.uint_square_redc bits a c s ; wr r
+  | ChPow => do r <- Pow.checked_pow bits a b ; wro r
+  | SatPow => do r <- Pow.saturating_pow bits a b ; wr r
+  | OvPow => do r <- Pow.overflowing_pow bits a b ; wrf r
+  (* ---- opaque: specification function of Model/Opaque.v ---- *)
   | Root => lift bits (z_root bits (eval a) s)
   end.
 
